@@ -92,6 +92,15 @@ def run_one(arg):
     return kind, pid, "ran", res
 
 
+def load_refusals():
+    """{patch id: set of checks} documented in refactors/REFUSALS.json."""
+    p = os.path.join(V, "refactors", "REFUSALS.json")
+    if not os.path.exists(p):
+        return {}
+    d = json.load(open(p, encoding="utf-8"))
+    return {k: set(v["checks"]) for k, v in d.items() if isinstance(v, dict)}
+
+
 def load_expect():
     if os.path.exists(EXPECT):
         return json.load(open(EXPECT, encoding="utf-8"))
@@ -111,7 +120,8 @@ def run_for_property(prop, verbose=True, jobs=None):
     with ProcessPoolExecutor(max_workers=jobs) as ex:
         results = list(ex.map(run_one, work))
     bad, stale = [], []
-    n_ref = n_seed = 0
+    n_ref = n_seed = n_refused = 0
+    refusals = load_refusals()
     for kind, pid, st, res in results:
         if st != "ran":
             stale.append(pid)
@@ -119,15 +129,18 @@ def run_for_property(prop, verbose=True, jobs=None):
         code, msg = res.get(prop, (0, ""))
         if kind == "refactor":
             n_ref += 1
-            if code != 0:
+            if code == 2 and prop in refusals.get(pid, ()):
+                n_refused += 1  # documented: outside the analysable fragment
+            elif code != 0:
                 bad.append(f"refactor {pid}: exit {code}: {msg[:160]}")
         else:
             n_seed += 1
             if code != 1:
                 bad.append(f"seeded {pid}: expected a violation, got exit {code} {msg[:120]}")
     summary = {
-        "refactor_patches_silent": n_ref - sum(1 for b in bad if b.startswith("refactor")),
+        "refactor_patches_silent": n_ref - n_refused - sum(1 for b in bad if b.startswith("refactor")),
         "refactor_patches": n_ref,
+        "refactor_patches_refused_as_documented": n_refused,
         "seeded_patches_detected": n_seed - sum(1 for b in bad if b.startswith("seeded")),
         "seeded_patches_expected": n_seed,
         "stale": stale,
